@@ -202,6 +202,14 @@ func plAlphabet() ([]plDef, map[string]*plDef) {
 		// num_ref_frames_in_pic_order_cnt_cycle = 2^32-2 (ue(v): 31 zeros, 32 ones) and nothing behind it
 		pocMax := []byte{0x67, 0x42, 0x00, 0x1e, 0xd7, 0x00, 0x00, 0x00, 0x01, 0xff, 0xff, 0xff, 0xfe}
 		v("avc_sh_sps_poc1max", plCat(avc[:11], plU16(len(pocMax)), pocMax, []byte{1}, plU16(len(plPps)), plPps), "lax")
+		// a sequence header that is framed consistently (lengths, one sps, one pps) around an SPS whose bit stream ends
+		// early: every prefix of the SPS from 4 bytes on, and one that ends with a ue(v) code in its very last bit
+		for k := 4; k < len(plSps); k++ {
+			cut := plSps[:k]
+			v(fmt.Sprintf("avc_sh_spscut%d", k), plCat(avc[:11], plU16(len(cut)), cut, []byte{1}, plU16(len(plPps)), plPps), "lax")
+		}
+		ue0 := []byte{0x67, 0x42, 0x00, 0x1e, 0x11}
+		v("avc_sh_sps_ue0end", plCat(avc[:11], plU16(len(ue0)), ue0, []byte{1}, plU16(len(plPps)), plPps), "lax")
 		// ---- HEVC sequence header (legacy and enhanced)
 		for _, k := range []struct {
 			pre string
